@@ -816,6 +816,7 @@ fn try_complete_cycle_head(
                 nested,
                 finalized,
                 value_converged,
+                metadata_converged,
                 deps_stable,
             });
         }
